@@ -226,4 +226,7 @@ pub fn run(ctx: &mut Ctx) {
         }
     });
     ctx.require(&r, &["accepted", "rejected"]);
+    // hidden state: every ordered pair of operation calls on a fresh thread against the lone call (no model involved)
+    let hist_calls = crate::histpairs::calls_ops(false, &|op| matches!(op.sig().0, 3 | 4));
+    crate::histpairs::pairwise(ctx, "C13", "interval_operations", hist_calls);
 }
